@@ -53,8 +53,11 @@ type Sandbox struct {
 	Log  string
 }
 
-func NewSandbox(root string) *Sandbox {
-	s := &Sandbox{Root: root, Dir: filepath.Join(root, "w", "x", "p"), Ctl: filepath.Join(root, "ctl")}
+func NewSandbox(root string) *Sandbox { return NewSandboxNamed(root, "p") }
+
+// NewSandboxNamed lets the caller choose the name of the project directory itself.
+func NewSandboxNamed(root, name string) *Sandbox {
+	s := &Sandbox{Root: root, Dir: filepath.Join(root, "w", "x", name), Ctl: filepath.Join(root, "ctl")}
 	s.Log = filepath.Join(s.Ctl, "vlog")
 	os.MkdirAll(s.Dir, 0o755)
 	os.MkdirAll(s.Ctl, 0o755)
